@@ -56,6 +56,9 @@ class OnOffSwitch(TreeClass):
         num_total_time_steps: int,
         time_step_duration: float,
     ) -> list[bool]:
+        # an always-off switch is off at every step, also when a fixed step list is present
+        if self.is_always_off:
+            return [False for _ in range(num_total_time_steps)]
         # case 1: list with fixed time steps is provided
         if self.fixed_on_time_steps is not None:
             on_list = [False for _ in range(num_total_time_steps)]
